@@ -26,6 +26,16 @@ BUILT['C37'] = ('kbd', '4/C37',
     'Trusts: the key-down signal format of the interface protocol; only drop-free schedules are judged when keys '
     'arrive while a program consumes them (drops would depend on the interleaving).')
 
+BUILT['C40'] = ('resume', '4/C40',
+    'Crash-point search: generated programs (loops, GOSUB, GOTO, IF, ON ERROR/RESUME NEXT, DEF FN, READ/DATA, '
+    'sequential and random files, INPUT) run once uninterrupted under Session.interact(), then again with QUIT at '
+    'sampled (quick) or all (thorough sweep) statement-boundary polls -> suspend -> close -> resume -> attach -> '
+    'continue, incl. double suspensions; output pipe, final variables, host files, text screen and pixels must '
+    'equal the uninterrupted run. State-file corruption: altered bytes must make Session.resume raise. '
+    'Exploration over crash points x programs is what the property quantifies over.',
+    'Trusts: the typist (scripted input through the input queue); suspension points judged for equality are '
+    'statement-loop polls; a QUIT inside a blocking statement is only required not to crash and to finish.')
+
 PURE = {
     'C02': 'pure function of two 16-bit operands: no schedule, clock, fault or history for a simulator to own (needs exhaustive enumeration/SMT)',
     'C03': 'pure function of a bit pattern: not a simulation target',
